@@ -314,4 +314,22 @@ def run(tier):
     gotc = sorted((f.path.split("::")[-1], ok) for f, form, w, sp, ok in resc)
     if gotc != [("bad_access", False), ("bad_member", False), ("good_access", True), ("good_member", True)]:
         ck.closed_fail.append("R5 control failed: fixture gives %s" % gotc)
+    # ---------------- R7 a pre-filter that transcribes a dispatcher's token set has no hole
+    import prefilter
+    ck.rule("R7.prefilter-covers-dispatcher", "a boolean token-set test that gates a dispatcher and lists at least nine tenths of its token kinds (and little else) lists all of them", floor=5)
+    seen7 = set()
+    for f7, P7, D7, miss7, sp7 in prefilter.sites(fx, lambda g: g.file.endswith("src/parser.rs")):
+        key7 = (f7.path, P7, D7)
+        if key7 in seen7:
+            continue
+        seen7.add(key7)
+        ck.instance("R7.prefilter-covers-dispatcher", "%s: %s gates %s" % (f7.path.split("::")[-1], P7.split("::")[-1], D7.split("::")[-1]), F.short_span(sp7), ok=not miss7)
+        if miss7:
+            ck.finding("R7.prefilter-covers-dispatcher", "R7.prefilter-covers-dispatcher/%s/%s/%s" % (P7.split("::")[-1], D7.split("::")[-1], "+".join(miss7)), F.short_span(sp7),
+                       "`%s` is asked before `%s` is reached (in `%s`) and lists the token kinds that function dispatches on, except %s: a construct that begins with such a token "
+                       "is never tried (`id<1>(x)` is read as the comparisons `(id < 1) > (x)`)" % (P7.split("::")[-1], D7.split("::")[-1], f7.path.split("::")[-1], ", ".join(miss7)))
+    got7 = sorted((f.path.split("::")[-1], bool(miss)) for f, P, D, miss, sp in prefilter.sites(F.load_fixture(), lambda g: g.path.startswith("prefilter::"), tk="prefilter::TokenKind"))
+    if got7 != [("bad_gate", True), ("good_gate", False)]:
+        ck.closed_fail.append("R7 control failed: fixture gives %s" % got7)
+    ck.note("R7 controls: fixture bad_gate (filter lists 10 of the dispatcher's 11 kinds) reported, good_gate (superset) silent")
     return ck.finish()
